@@ -720,12 +720,12 @@ class Interp:
                 r = self.field(body, name)
                 if r[0] not in ('f', 'tf') or r[1] != body:
                     return r
+        if b[0] == 'alt':
+            return ('alt', [(c, self.field(v, name)) for c, v in b[1]])
         if name.isdigit():
             if b[0] == 'tuple' and int(name) < len(b[1]):
                 return b[1][int(name)]
             return ('tf', b, int(name))
-        if b[0] == 'alt':
-            return ('alt', [(c, self.field(v, name)) for c, v in b[1]])
         return ('f', b, name)
 
     def e_Index(self, e, env, **kw):
@@ -1122,6 +1122,8 @@ class Interp:
         if m == 'unzip':
             c, v = self.as_opt(recv)
             if c is not None:
+                pos, neg = cond_facts(c)
+                v = prune(v, pos, neg)
                 return ('tuple', [('opt', c, self.field(v, '0')), ('opt', c, self.field(v, '1'))])
             return ('mcall', recv, m, args)
         if m == 'enumerate':
